@@ -114,6 +114,56 @@ def itemView : ConnItem → Option (Bytes × Bytes)
   | .req r => requestView r
   | .connect c => connectView c
 
+/-! ### the localhost names of one proxy instance (`NewHTTPProxy`, `hostsfile.LocalhostAliases`)
+
+`newHTTPProxy` starts `hp.localhost` with three built-in names; `NewHTTPProxy` appends the names the
+machine's hosts file gives to loopback addresses, each lower-cased; `isLocalhost` lower-cases the host
+and looks it up in that list (a linear scan: the list is in no particular order and may hold a name
+several times). The hosts file is part of the process environment: it is a parameter here. -/
+
+/-- one line of the hosts file: the address as written and the names that follow it -/
+structure HostsRecord where
+  ip : Bytes
+  names : List Bytes
+  deriving Repr, DecidableEq
+
+/-- `hostsfile.LocalhostAliases`: the names of the records whose address `IsLoopback()`, as the file
+    spells them (the function also sorts and de-duplicates them, which nothing below depends on) -/
+def localhostAliases (recs : List HostsRecord) : List Bytes :=
+  (recs.filter fun r => isLoopbackLiteral r.ip).flatMap fun r => r.names
+
+/-- `hp.localhost` as `newHTTPProxy` initialises it -/
+def builtinLocalhost : List Bytes := [bs "localhost", bs "0.0.0.0", bs "::"]
+
+/-- `hp.localhost` after `NewHTTPProxy`: the built-in names, then the aliases lower-cased -/
+def hpLocalhost (aliases : List Bytes) : List Bytes := builtinLocalhost ++ aliases.map Ascii.lower
+
+/-- `HTTPProxy.isLocalhost` of an instance constructed on a machine whose hosts file has the loopback
+    aliases `aliases` (as spelt there) -/
+def isLocalhostOf (aliases : List Bytes) (host : Bytes) : Bool := isLocalhostNames (hpLocalhost aliases) host
+
+/-- a lookup that relies on the list being sorted (`slices.BinarySearch` on the byte order): the
+    counter-model — it agrees with the linear scan only on lists that ARE sorted, and `hp.localhost`
+    is not (built-in names first; a list sorted as spelt is no longer sorted once lower-cased) -/
+def bytesLt : Bytes → Bytes → Bool
+  | [], [] => false
+  | [], _ :: _ => true
+  | _ :: _, [] => false
+  | a :: as, b :: bs => a < b || (a == b && bytesLt as bs)
+
+def sortedLookup (fuel : Nat) (xs : List Bytes) (x : Bytes) : Bool :=
+  match fuel with
+  | 0 => false
+  | fuel + 1 =>
+    if xs.isEmpty then false else
+    let mid := xs.length / 2
+    match xs[mid]? with
+    | none => false
+    | some m =>
+      if m == x then true
+      else if bytesLt m x then sortedLookup fuel (xs.drop (mid + 1)) x
+      else sortedLookup fuel (xs.take mid) x
+
 /-- the outcome is a refusal with this reason -/
 def ItemOutcome.refusedWith : ItemOutcome → Refusal → Bool
   | .req (.refused st w), why => w == why && st == why.status
